@@ -133,6 +133,12 @@ def enumerate_sweeps(tier, seed, shard, nshards):
             i += 1
 
 
+def _fill_build(u):
+    s = 2e7 * u[3] if u[5] < 0.5 else 10.0 ** (-3.0 + 10.301 * u[3])          # uniform / log-uniform distances, as the statement says
+    return {"kind": "float", "kinds": None, "num": "float", "defaults": False, "lat1": -90.0 + 180.0 * u[0], "lon1": -180.0 + 360.0 * u[1],
+            "az": 360.0 * u[2], "s": s, "ell": S.u_ellipsoid((u[5] * 2) % 1.0, u[4], 280.0, 320.0)}
+
+
 def T_sweep_ell(rnd):
     if rnd.random() < 0.5:
         return S.SHIPPED_ELLIPSOIDS[rnd.randrange(4)]
@@ -149,4 +155,7 @@ SUBCHECKS = [
              shards_quick=12, shards_thorough=16,
              rule="stratified sweeps: the azimuth circle (2 lines of 40 000 / 400 000 directions: 0.009 / 0.0009 deg apart), start latitude and "
                   "distance (8 000 / 100 000 points), other arguments fixed per line by the seed"),
+    SubCheck("quasi_random_fill", check_direct, enumerate=S.fill(414, 6, _fill_build, 40000, 800000), nontrivial=lambda c: c["s"] > 1.0,
+             classes=_classes, shards_quick=12, shards_thorough=16,
+             rule="low-discrepancy fill of start latitude x longitude x azimuth x distance (uniform / log-uniform) x ellipsoid: 40 000 / 800 000 points"),
 ]
